@@ -168,7 +168,8 @@ static int hv( char c ) { return ( c >= '0' && c <= '9' ) ? c - '0' : ( c >= 'a'
 int main() {''')
     for g, _ in groups:
         o.append(f"  {g.ns}::reg();")
-    o.append(r'''  std::string line;
+    o.append(r'''  vh::g_step_budget = 300000;  // a parse that no longer terminates ends as an R 2 BUDGET result instead of a hang
+  std::string line;
   while( std::getline( std::cin, line ) ) {
     std::istringstream is( line );
     int cfg; std::string cid, hex; std::size_t ib, il, ic;
@@ -192,7 +193,7 @@ class ImplResult:
 
 
 def run_impl(cases: List[Case], san: str = 'asan', per_tu: int = 8, jobs: int = 16, tag: str = 'run',
-             timeout: int = 600) -> ImplResult:
+             timeout: int = 150) -> ImplResult:
     """Group cases by grammar, batch grammars into translation units, compile in parallel against
     the current /repo headers, run, parse."""
     by_g: Dict[str, Tuple[Grammar, Dict[Config, None], List[Case]]] = {}
@@ -227,17 +228,25 @@ def run_impl(cases: List[Case], san: str = 'asan', per_tu: int = 8, jobs: int = 
         outs = []
         crashes = []
         start = 0
+        timeouts = 0
         for _attempt in range(8):
             chunk = feed[start:]
             if not chunk:
                 break
             try:
+                # a hang (e.g. a loop that no longer consumes) is a result: after the first one the remaining cases get a short budget
                 rp = subprocess.run([str(ex)], input="\n".join(l for _, l in chunk) + "\n", capture_output=True, text=True,
-                                    timeout=timeout, env=env)
+                                    timeout=(timeout if timeouts == 0 else 30), env=env)
                 out, err, rc = rp.stdout, rp.stderr, rp.returncode
             except subprocess.TimeoutExpired as e:
-                out = (e.stdout or b'').decode() if isinstance(e.stdout, bytes) else (e.stdout or '')
-                err, rc = 'timeout', -9
+                out = (e.stdout or b'').decode(errors='replace') if isinstance(e.stdout, bytes) else (e.stdout or '')
+                out = out[:20_000_000]
+                err, rc = 'timeout (the implementation did not terminate)', -9
+                timeouts += 1
+                if timeouts > 2:
+                    outs.append(out)
+                    crashes.append((None, f"tu{bi}: repeated timeouts"))
+                    break
             outs.append(out)
             if rc == 0:
                 break
